@@ -13,6 +13,8 @@ import itertools
 import json
 
 from . import common, ws
+import dataclasses
+import typing
 from .c05 import jv, sint, fbits
 
 DESIGN_REF = "DESIGN.md §5 C13"
@@ -24,6 +26,16 @@ NAMES = ["a", "b", "c", "d"]
 # ... and two strings that are different values but the same text after Unicode normalisation
 VALUES = [0, 1, "", "a", None, False, True, 2, "__none__", 1.0, 0.0, 2.0, 1.5, "caf\u00e9", "cafe\u0301"]
 DEFAULTS = [0, "", False, None, 1, "a", 1.0, 0.0]
+
+
+@dataclasses.dataclass
+class Settings(object):
+    name: str
+    threshold: float = dataclasses.field(default=0.5, init=False)
+    instances: typing.ClassVar[int] = 0
+
+    def __post_init__(self):
+        Settings.instances += 1
 
 
 def enc(v):
@@ -329,6 +341,38 @@ def run(ctx):
                     res.violations.append({"what": "two different bindings share one signature",
                                            "input": {"function": src, "argument_1": repr(tables[prev]), "argument_2": repr(t), "signature": sig}, "kf": None})
                 seen_t.setdefault(sig, ti)
+    # dataclass arguments that differ only in a field that is not an argument of the constructor (init=False, set on the object
+    # afterwards) or only in the class of the value: different bindings; a class variable is no part of the value
+    with ws.Workspace("c13e") as w:
+        a1, a2, a3 = Settings("m"), Settings("m"), Settings("m")
+        a2.threshold = 0.9
+        a3.threshold = 0.5
+        # (a dataclass of another class with the same fields and values hashes alike: the known finding C05-KF3, not used here)
+        cfgs = [("threshold 0.5", a1), ("threshold 0.9", a2), ("threshold 0.5 again", a3)]
+        src = "import dds\n\ndef f(cfg, k=0):\n    return repr((cfg, cfg.threshold, k))\n"
+        mod = w.write_module(w.unique("c13e"), src)
+        sigs = {}
+        for ci, (what, cfg) in enumerate(cfgs):
+            store.synced.clear()
+            try:
+                got = dds.keep("/cfg%d" % ci, mod.f, cfg)
+                sig = store.synced[-1]["/cfg%d" % ci]
+            except BaseException as ex:
+                got, sig = "EXC:" + type(ex).__name__ + ":" + str(ex)[:80], None
+                ws.reset_dds_state()
+            res.evaluations += 1
+            res.nontrivial("dataclass argument " + what)
+            want = mod.f(cfg)
+            if got != want:
+                res.violations.append({"what": "a kept call with the dataclass argument %r (%s) returned %r, plain execution gives %r" % (cfg, what, got, want),
+                                       "input": {"function": src, "argument": repr(cfg), "threshold": cfg.threshold}, "kf": None})
+            sigs[what] = sig
+        if sigs.get("threshold 0.5") is not None and sigs["threshold 0.5"] == sigs.get("threshold 0.9"):
+            res.violations.append({"what": "two dataclass arguments that differ in a field that is not an argument of the constructor (init=False) share one signature",
+                                   "input": {"function": src, "argument_1": "Settings('m') with threshold 0.5", "argument_2": "Settings('m') with threshold 0.9"}, "kf": None})
+        if sigs.get("threshold 0.5") != sigs.get("threshold 0.5 again"):
+            res.violations.append({"what": "two equal dataclass arguments (built one after the other: the class counts its instances in a class variable) get two signatures",
+                                   "input": {"function": src, "argument": "Settings('m')"}, "kf": None})
     # unsupported parameter kinds (unit level only)
     ns = {}
     exec("def g1(a, *rest):\n    return 1\ndef g2(a, *, k=1):\n    return 1\ndef g3(a, **kw):\n    return 1\n", ns)
